@@ -58,7 +58,7 @@ def gen_patterns(rng):
     return pats, alpha
 
 
-def gen_lines(rng, pats, alpha, nmax=40):
+def gen_lines(rng, pats, alpha, nmax=40, keep_cr=False):
     n = rng.choice([0, 1, 2, 3, 5, 8, 13, 20, nmax])
     lines = []
     noise = alpha + list("qrstuv") + MULTI[:3]
@@ -86,14 +86,44 @@ def gen_lines(rng, pats, alpha, nmax=40):
         line = "".join(parts)
         if rng.random() < 0.3:
             line = rand_token(rng, list("qrstuv "), 1, 6) if rng.random() < 0.5 else line.replace(rng.choice(pats), "")
-        line = line.replace("\n", "").replace("\r", "").replace("\x1b", "")
+        line = line.replace("\n", "").replace("\x1b", "")
+        if keep_cr:
+            if line.endswith("\r"):
+                line += rng.choice(["x", " ", "é"])     # never a CR right before the line's LF
+        else:
+            line = line.replace("\r", "")
         lines.append(line)
     return lines
 
 
+def gen_deep_chain(rng, idx):
+    """A long chain of patterns, each a proper prefix of the next (depth 100..600), via -f, coloured:
+    hundreds of occurrences cover the same byte."""
+    unit = rng.choice(["a", "ab", "é", "あb"])
+    depth = rng.choice([100, 127, 128, 129, 200, 255, 256, 257, 300, 512, 600])
+    pats = [unit * k for k in range(1, depth + 1)]
+    rng.shuffle(pats)
+    longest = unit * depth
+    lines = [longest, "x" + longest + "y", unit * (depth // 2), "none", longest + longest]
+    rng.shuffle(lines)
+    return {"idx": idx, "f_pats": pats, "p_pats": [], "stdin": rng.random() < 0.5, "inputs": [lines], "names": ["in1.txt"],
+            "flags": ["--color=always"] + (["-n"] if rng.random() < 0.5 else []), "color": True, "auto": False}
+
+
 def gen_invocation(rng, idx):
+    if rng.random() < 0.01:
+        return gen_deep_chain(rng, idx)
     pats, alpha = gen_patterns(rng)
+    # carriage returns are ordinary bytes inside a pattern given with -p (only "\n" separates -p
+    # patterns); input lines may contain them anywhere but at their end (BufRead::lines strips "\r\n")
+    cr = rng.random() < 0.06
+    if cr:
+        k = rng.randrange(len(pats))
+        pats[k] = pats[k] + "\r" if rng.random() < 0.6 else pats[k][:1] + "\r" + pats[k][1:]
+        pats = list(dict.fromkeys(pats))
     via = rng.choice(["p", "f", "both"]) if len(pats) >= 2 else rng.choice(["p", "f"])
+    if cr:
+        via = "p"
     if via in ("p", "both") and any(True for _ in [0] if pats[-1].startswith("-")):
         via = "f"
     nul = False
@@ -115,7 +145,7 @@ def gen_invocation(rng, idx):
     nfiles = 0 if stdin_mode else rng.randint(1, 3)
     inputs = []
     for _ in range(max(1, nfiles)):
-        lines = gen_lines(rng, pats, alpha)
+        lines = gen_lines(rng, pats, alpha, keep_cr=cr)
         if nul and lines:
             lines[rng.randrange(len(lines))] += "a\x00b"
         inputs.append(lines)
@@ -295,10 +325,14 @@ def check_invocation(inv, binary, workdir, use_valgrind=False):
         else:
             hl = [h for _, h in cells[pos:]]
             occ = occurrences(pats_b, lb)
-            want = [False] * len(lb)
+            diff = [0] * (len(lb) + 1)
             for (s, e) in occ:
-                for j in range(s, e):
-                    want[j] = True
+                diff[s] += 1
+                diff[e] -= 1
+            want, depth = [], 0
+            for j in range(len(lb)):
+                depth += diff[j]
+                want.append(depth > 0)
             if any(h for _, h in cells[:pos]):
                 return False, "output line %d: the prefix is highlighted" % k, stats, observed
             if hl != want:
